@@ -44,9 +44,11 @@ def _case(draw, big):
     n = len(spec["E"])
     op = st.one_of(
         st.builds(lambda k, s: {"op": "tensor", "theory": k, "slot": s}, st.integers(0, len(THEORIES) - 1), st.integers(0, 1)),
-        st.builds(lambda s, r, m, mode, nref: {"op": "rdm", "slot": s, "rho": r, "method": m, "mode": mode, "nref": nref},
+        st.builds(lambda s, r, m, mode, nref, pd: {"op": "rdm", "slot": s, "rho": r, "method": m, "mode": mode,
+                                                     "nref": nref, "pd": pd},
                   st.integers(0, 2), st.integers(0, 1), st.sampled_from(["short-exp", "short-exp-2", "short-exp-6"]),
-                  st.sampled_from(["set", "set", "arg", "default", "default"]), st.sampled_from([1, 2, 5])),
+                  st.sampled_from(["set", "set", "arg", "default", "default"]), st.sampled_from([1, 2, 5]),
+                  st.sampled_from([None, None, "Lorentzian", "Gaussian"])),
         st.builds(lambda r, L: {"op": "sv", "psi": r, "L": L}, st.integers(0, 1), st.sampled_from([2, 4])),
         st.builds(lambda r: {"op": "pop", "p": r}, st.integers(0, 1)),
         st.builds(lambda d, r: {"op": "heom", "depth": d, "rho": r}, st.integers(1, 2), st.integers(0, 1)),
@@ -192,7 +194,8 @@ def check_case(case, ctx):
                 else:
                     RT, hret = pool.agg.get_RelaxationTensor(pool.ta, **kw)
                 pool.slots[op["slot"]] = (RT, hret, key)
-                pool.props.pop(op["slot"], None)
+                for k in [k for k in pool.props if k[0] == op["slot"]]:
+                    pool.props.pop(k)
                 return numpy.concatenate([_tensor_numbers(RT), numpy.asarray(hret._data).ravel().astype(complex)])
             if kind == "rdm":
                 slot = op["slot"] if op["slot"] in pool.slots else None
@@ -200,12 +203,26 @@ def check_case(case, ctx):
                     RT, hret, tkey = None, pool.ham, ("none",)
                 else:
                     RT, hret, tkey = pool.slots[slot]
-                if slot not in pool.props:
-                    pool.props[slot] = [ReducedDensityMatrixPropagator(pool.ta, hret, RT) if RT is not None
-                                        else ReducedDensityMatrixPropagator(pool.ta, hret), 1]
+                td = RT is not None and getattr(RT, "is_time_dependent", False)
+                # a propagator with additional pure dephasing (needs a time-independent tensor)
+                pd = op.get("pd") if (RT is not None and not td) else None
+                pslot = (slot, pd)
+                if pslot not in pool.props:
+                    if RT is None:
+                        pr = ReducedDensityMatrixPropagator(pool.ta, hret)
+                    elif pd:
+                        from quantarhei.qm import PureDephasing
+                        g = 0.01 * (numpy.ones((pool.n + 1, pool.n + 1)) - numpy.eye(pool.n + 1))
+                        pr = ReducedDensityMatrixPropagator(pool.ta, hret, RT,
+                                                            PDeph=PureDephasing(drates=g if pd == "Lorentzian" else g / 20.0,
+                                                                                dtype=pd))
+                    else:
+                        pr = ReducedDensityMatrixPropagator(pool.ta, hret, RT)
+                    pool.props[pslot] = [pr, 1]
+                tkey = tkey + (pd,)
+                slot = pslot
                 prop, lastset = pool.props[slot]
                 rho = pool.rho_objs[op["rho"]]
-                td = RT is not None and getattr(RT, "is_time_dependent", False)
                 nref = 1 if td else op["nref"]          # refined steps of a TD tensor must fit its own axis
                 mode = op["mode"]
                 if mode == "set":
